@@ -46,6 +46,7 @@ type Result struct {
 	Sample       any
 	Trace        []string
 	HarnessError string
+	LibRecvOps, LibSendOps int
 }
 
 // Run is the per-run context shared by workloads and oracles.
@@ -61,7 +62,35 @@ type Run struct {
 	Sample any
 	Tier   string
 	extra  uint64 // extra case hash material
+	Force  *ForcedFault
+	libRecvOps, libSendOps int
 }
+
+// A ForcedFault overrides the scripted channel faults of a scenario: the
+// k-th Recv (or Send) of the library's channel end fails in the given way.
+// Used by the systematic sweep "fail every channel operation of this workload".
+type ForcedFault struct {
+	Recv bool `json:"recv"`
+	At   int  `json:"at"`
+	Kind int  `json:"kind"`
+}
+
+// applyForce replaces the fault script of e by the forced fault, if any.
+func (r *Run) applyForce(e *End) {
+	if r.Force == nil {
+		return
+	}
+	e.FaultRecvAt, e.FaultSendAt = map[int]int{}, map[int]int{}
+	e.FaultRate = 0
+	if r.Force.Recv {
+		e.FaultRecvAt[r.Force.At] = r.Force.Kind
+	} else {
+		e.FaultSendAt[r.Force.At] = r.Force.Kind
+	}
+}
+
+// noteOps records how many channel operations the library made on e.
+func (r *Run) noteOps(e *End) { r.libRecvOps, r.libSendOps = e.recvOps, e.sendOps }
 
 // Fail records the first violation of the run.
 func (r *Run) Fail(class, format string, args ...any) {
@@ -195,6 +224,9 @@ var scenarios = map[string]Scenario{}
 var MaxSteps = 20000
 
 // RunOne executes one simulated run in a fresh bubble.
+// Forced is the fault override of the next RunOne call (nil: none).
+var Forced *ForcedFault
+
 func RunOne(t *testing.T, prop, tier string, seed uint64, gen, sched *rt.Source, keepEvents bool) (res *Result) {
 	sc := scenarios[prop]
 	if sc == nil {
@@ -214,7 +246,7 @@ func RunOne(t *testing.T, prop, tier string, seed uint64, gen, sched *rt.Source,
 		synctest.Test(t, func(t *testing.T) {
 			sim := rt.New(gen, sched, MaxSteps)
 			defer sim.Finish()
-			r := &Run{Prop: prop, Sim: sim, Gen: gen, Sch: sched, Faults: map[string]int{}, Probes: map[string]int{}, Tier: tier}
+			r := &Run{Prop: prop, Sim: sim, Gen: gen, Sch: sched, Faults: map[string]int{}, Probes: map[string]int{}, Tier: tier, Force: Forced}
 			sim.TraceAll = keepEvents
 			func() {
 				defer func() {
@@ -234,6 +266,7 @@ func RunOne(t *testing.T, prop, tier string, seed uint64, gen, sched *rt.Source,
 			res.Switches = sim.Switches
 			res.SimTime = sim.SimTime
 			res.Faults = r.Faults
+			res.LibRecvOps, res.LibSendOps = r.libRecvOps, r.libSendOps
 			res.Probes = r.Probes
 			res.Sample = r.Sample
 			res.Trace = sim.Trace
